@@ -366,6 +366,7 @@ fn batch_cancelling<S: Scheme>(ctx: &mut Ctx, rng: &mut ChaCha20Rng) {
 }
 
 pub fn run(ctx: &mut Ctx) {
+    crate::schemes::set_custom_params(true);
     for_each_scheme!(ctx, S, {
         let n = ctx.n(100, 2000) / <S as Scheme>::WEIGHT.max(1);
         ctx.run_cases(<S as Scheme>::NAME, n.max(4), |ctx, _i, rng| generic_case::<S>(ctx, rng));
